@@ -47,4 +47,78 @@ def units(prop):
                  bounds="maps of 0..5 (quick) / 0..8 (thorough) labels in non-decreasing order, symbolic real coordinates and length",
                  nontrivial_rule="at least two labels",
                  assumptions=["labels in non-decreasing order (the reader sorts them)", "exact real arithmetic"],
-                 outside=["the CMAP reader (pandas): not decided by this check", "more than 8 labels"])]
+                 outside=["the CMAP reader (pandas): not decided by this check", "more than 8 labels"]),
+            Unit(name="cmap-reader-on-witnesses", body=body_reader, witness=False,
+                 configs=lambda tier: [dict(n1=a, n2=b) for a, b in ((1, 0), (2, 1), (3, 2))] + ([dict(n1=4, n2=3)] if tier != "quick" else []),
+                 functions=["src.parsers.cmap_reader:CmapReader", "src.parsers.bionano_file_reader:BionanoFileReader.readFile"],
+                 bounds="NOT solver-decided: one witness per path (three molecules: ids 5, 2 and a label-less 9) rendered as CMAP text in canonical, "
+                        "reversed and interleaved row order, with and without an extra column, read with and without id filters by the real reader",
+                 nontrivial_rule="every path",
+                 assumptions=["sampled public-API confirmation: the reader's behaviour on other values is not covered"],
+                 outside=["everything about the reader beyond the sampled witnesses"])]
+
+
+# ------------------------------------------------------------------------------------------------ reader on path witnesses
+# NOT solver-decided: pandas cannot hold symbolic values.  For every path of a small symbolic scenario the solver's witness is
+# rendered as CMAP text (canonical, reversed and interleaved row orders, an extra column, a label-less molecule) and read by the
+# real CmapReader; the result is compared with the maps the text describes.  Public-API confirmation only (sampled values).
+
+import io
+import os
+
+
+def _cmap_text(mols, order, extra_column):
+    rows = []
+    for mid, (length, labels) in mols.items():
+        n = len(labels)
+        for i, p in enumerate(labels):
+            rows.append((mid, length, n, i + 1, 1, p))
+        rows.append((mid, length, n, n + 1, 0, length))
+    if order == "reversed":
+        rows = rows[::-1]
+    elif order == "interleaved":
+        rows = rows[::2] + rows[1::2]
+    head = "# CMAP File Version:\t0.1\n# Label Channels:\t1\n"
+    cols = ["CMapId", "ContigLength", "NumSites", "SiteID", "LabelChannel", "Position", "StdDev", "Coverage", "Occurrence"]
+    if extra_column:
+        cols.insert(3, "Extra")
+    out = head + "#h " + "\t".join(cols) + "\n#f " + "\t".join("float" for _ in cols) + "\n"
+    for mid, length, n, site, ch, p in rows:
+        vals = [str(mid), f"{length:.1f}", str(n), str(site), str(ch), f"{p:.1f}", "0.0", "1.0", "1.0"]
+        if extra_column:
+            vals.insert(3, "x")
+        out += "\t".join(vals) + "\n"
+    return out
+
+
+def body_reader(E, cfg):
+    from src.parsers.cmap_reader import CmapReader
+    n1, n2 = cfg["n1"], cfg["n2"]
+    mols_sym = {}
+    for mid, n in ((5, n1), (2, n2), (9, 0)):
+        labels = []
+        for i in range(n):
+            v = E.real(f"m{mid}_label{i}")
+            E.assume(v >= 0 if i == 0 else v > labels[-1] + 1)
+            labels.append(v)
+        length = E.real(f"m{mid}_length")
+        E.assume(length >= (labels[-1] if labels else 0) + 1)
+        mols_sym[mid] = (length, labels)
+    mols = {mid: (float(E.model_value(l)), [float(E.model_value(x)) for x in ls]) for mid, (l, ls) in mols_sym.items()}
+    E.tag("nontrivial")
+    expected = {mid: (int(float(f"{l:.1f}")), sorted(float(f"{x:.1f}") for x in ls)) for mid, (l, ls) in mols.items() if ls}
+    for order in ("canonical", "reversed", "interleaved"):
+        for extra in (False, True):
+            text = _cmap_text(mols, order, extra)
+            for ids in (None, [5], [2, 9], [5, 2]):
+                try:
+                    got = CmapReader().readQueries(io.StringIO(text), ids)
+                except Exception as ex:  # noqa
+                    E.fail(f"reader-raises:{type(ex).__name__}")
+                    continue
+                want = {k: v for k, v in expected.items() if ids is None or k in ids}
+                have = {int(m.moleculeId): (m.length, list(m.positions)) for m in got}
+                if len(got) != len(have) or have != want:
+                    E.fail(f"reader-returns-every-labelled-molecule-exactly:{order}{'-extra-column' if extra else ''}-{'all' if ids is None else 'filtered'}")
+    E.check("checked", True)
+    return [sorted(expected)]
